@@ -54,6 +54,15 @@ example : ∃ g, mkGrandsire 7 none = some g ∧
   refine ⟨(mkGrandsire 7 none).get (by decide), by simp, ?_⟩
   decide
 
+/-- **The known finding, as a theorem about the model of `start_next_row`** (`C05-pending-thats-all-cancels-go`): when
+the method is due to start at a row end at which a That's all countdown has reached zero - the That's all was called
+before the start, in rows that were not rounds - the control state that results rings rounds: the start is cancelled
+by a call made before it.  (The countdown can only be pending there when the rows before the start were not rounds:
+on rounds it is absorbed at the next row end.  The real code's witness is in `known_findings.json`.) -/
+theorem pending_thats_all_cancels_start (c : Ctl) (i : CtlIn) (hs : startsNow c = true) (h0 : c.rowsLeft = some 0) :
+    (ctlNext c i).ringingRounds = true ∧ (ctlNext c i).ringingOpening = false ∧ (ctlNext c i).rowsLeft = none := by
+  simp [ctlNext, hs, h0]
+
 /-! ### The whole system -/
 section System
 open FreshTouch MethodRows
